@@ -115,6 +115,7 @@ class LegacyAdvertiser:
                 ll.AdvInd(
                     advertiser_address=self.address,
                     data=self.advertising_data,
+                    scan_response_data=self.scan_response_data,
                 )
             )
 
@@ -171,7 +172,9 @@ class AdvertisingSet:
             address = self.address
             assert address
 
-            self.controller.send_advertising_pdu(ll.AdvInd(address, bytes(self.data)))
+            self.controller.send_advertising_pdu(
+                ll.AdvInd(address, bytes(self.data), bytes(self.scan_response_data))
+            )
 
 
 # -----------------------------------------------------------------------------
@@ -881,7 +884,7 @@ class Controller:
                         direct_address.address_type if direct_address else 0
                     ),
                     direct_address=direct_address or hci.Address.ANY,
-                    data=pdu.data,
+                    data=pdu.scan_response_data,
                 )
                 self.send_hci_packet(
                     hci.HCI_LE_Extended_Advertising_Report_Event([ext_report])
@@ -899,7 +902,7 @@ class Controller:
                     event_type=hci.HCI_LE_Advertising_Report_Event.EventType.SCAN_RSP,
                     address_type=pdu.advertiser_address.address_type,
                     address=pdu.advertiser_address,
-                    data=pdu.data,
+                    data=pdu.scan_response_data,
                     rssi=-50,
                 )
                 self.send_hci_packet(hci.HCI_LE_Advertising_Report_Event([report]))
